@@ -32,10 +32,12 @@ Collect(obs) == /\ st.k < MaxCycles
                 /\ st' = DoCollect(Cfg, st, obs) /\ nops' = 0
                 /\ act' = [op |-> "Collect", obs |-> obs]
 
-Next == /\ \/ \E a \in Attrs(Cfg), j \in 1..NV(Cfg) : Rec(a, j)
-           \/ \E c \in 1..(Cfg.ncb - 1) : Reg(c) \/ Unreg(c)
-           \/ \E obs \in Tables : Collect(obs)
-        /\ hist' = Append(hist, act')
+(* one named disjunct per operation of the history (TLC reports coverage per disjunct) *)
+DoRecord == \E a \in Attrs(Cfg), j \in 1..NV(Cfg) : Rec(a, j) /\ hist' = Append(hist, act')
+DoRegister == \E c \in 1..(Cfg.ncb - 1) : Reg(c) /\ hist' = Append(hist, act')
+DoUnregister == \E c \in 1..(Cfg.ncb - 1) : Unreg(c) /\ hist' = Append(hist, act')
+DoCollectPoint == \E obs \in Tables : Collect(obs) /\ hist' = Append(hist, act')
+Next == DoRecord \/ DoRegister \/ DoUnregister \/ DoCollectPoint
 Spec == Init /\ [][Next]_vars
 
 (* act and hist are history variables, hidden from the fingerprint.  TLC explores  *)
